@@ -236,6 +236,27 @@ PROPS['C01'] = dict(
          'correspondence and the wire monitor (three known findings K01a/K01b/K01c show the full statement is false of this code). '
          'Trusted: Coq kernel, model, Spec.v, extraction, harness, Python decoder. No axioms.')
 
+PROPS['C04'] = dict(
+    codec=[('decode_gen', 1500, 20000)],
+    sess=[('py_c04', 400, 6000), ('sess_c04', 300, 5000), ('sess_base', 100, 2000)],
+    events='wrf', state=['srv', 'ctl', 'conn', 'live', 'sp', 'rb', 'pl'],
+    monitors=[M.mon_c04, M.mon_panic],
+    codec_monitors=[M.mon_decode],
+    title='inbound publishes delivered faithfully, acknowledged in order, QoS 2 only once',
+    claim='Proved in Coq: a PUBLISH decodes to exactly the fields the broker encoded (topic, identifier, QoS, retain, DUP, all '
+          'properties through the lazy iterator, payload; no bound on lengths); QoS 0 is delivered; QoS 1 queues PUBACK(id) at the '
+          'tail of the control queue, then delivers; a first QoS 2 arrival records the identifier, queues PUBREC(id) and delivers; a '
+          'retransmission while the identifier is pending queues PUBREC again and is never delivered; PUBREL queues PUBCOMP '
+          '(success if pending, 0x92 otherwise) and frees the identifier; through every session step (outbound traffic, disconnect, '
+          'resumed CONNACK, other packets) a pending identifier stays pending unless that step is its PUBREL or a CONNACK without '
+          'session present, which empties the set; the set is duplicate-free and at most 8 in every reachable world; the engine '
+          'starts the first fresh acknowledgement of the queue (arrival order). Tied to the code by differential runs (pending set, '
+          'control queue, reader state compared after every action) and a reference receiver (Python) checking every delivery and '
+          'every acknowledgement on the wire.',
+    note='Partial: the explicit residue `refused` (control queue already holds 8 entries, or the acknowledgement exceeds the '
+         'broker Maximum Packet Size) is not shown unreachable; in it a first QoS 2 arrival is recorded but neither acknowledged nor '
+         'delivered (see DESIGN.md). Trusted: Coq kernel, model, extraction, harness, Python reference. No axioms.')
+
 TRUSTED_BASE = [
     'Coq 8.16.1 kernel and its bytecode VM (vm_compute); native_compute is not used',
     'axioms: none (every property theorem is reported "Closed under the global context" by Print Assumptions)',
